@@ -22,7 +22,7 @@ RULE = ("seeded random histories: 1-2 built arrays (shapes with empty rows), the
         "in scope; each history is run once as is and once per (position, array, read kind) with one extra read inserted (all positions; seeded choice of "
         "array and kind; kinds: tolist str ravel sum ufunc concatenate iter int-row | len shape size discarded-selection str-and-nothing-else); compared: every read output and the "
         "final content of every array; non-trivial = the history contains an assignment and a selection; distinct = distinct (history, insertion)")
-MAT_READS = ["tolist", "str", "ravel", "sum", "ufunc", "concatenate", "iter", "introw", "mean", "max", "gtcol", "mulcol", "subcol", "sort", "where", "nonzero", "sum0", "colcounts", "padded", "accumulate", "nonzero_m", "elemarr", "negcol"]
+MAT_READS = ["tolist", "str", "ravel", "sum", "ufunc", "concatenate", "iter", "introw", "mean", "max", "gtcol", "mulcol", "subcol", "sort", "where", "nonzero", "sum0", "colcounts", "padded", "accumulate", "nonzero_m", "elemarr", "negcol", "where_x"]
 PEEKS = ["len", "shape", "size", "peeksel", "strpeek"]      # strpeek: print the array and nothing else (str() works on a[:20], a new array)
 BASES = [[[0, 1, 2], [3, 4], [5], [6, 7]], [[], [0, 1], [2], []], [[0, 1, 2, 3], [4, 5, 6], [7, 8, 9, 10]], [[0], [], [1, 2]]]
 
@@ -59,6 +59,7 @@ COLS = [1e16, 0.1, 0.3, 1e-3, 7.0, 0.5, 2.0, 1e8]
 def read_result(x, kind):
     """the read's own result (a pure function of the array's content), canonicalised"""
     import numpy as np
+    from npstructures import RaggedArray
     from harness.fam_ra2 import ra_obs, kl
     n = len(x)
     col = np.array([COLS[i % len(COLS)] for i in range(n)])[:, None]
@@ -78,6 +79,10 @@ def read_result(x, kind):
         if kind == "colcounts": return kl(x.col_counts()) if n and max(np.asarray(x.lengths).tolist()) > 0 else None
         if kind == "padded": return kl(x.as_padded_matrix()) if n and max(np.asarray(x.lengths).tolist()) > 0 else None
         if kind == "accumulate": return ra_obs(np.add.accumulate(x, axis=-1))
+        if kind == "where_x":         # the array as the SECOND argument of np.where (the mask is another, freshly built ragged array and dispatches)
+            lens_ = np.asarray(x.lengths).tolist()
+            mrows = [[(i + j) % 2 == 0 for j in range(l)] for i, l in enumerate(lens_)]
+            return ra_obs(np.where(RaggedArray(mrows, dtype=bool), x, RaggedArray([[-1.0] * l for l in lens_], dtype=float))) if n else None
         if kind == "negcol":          # a column counted from the row ends, as the first thing asked of the array (a lazily strided view keeps its own step)
             ml = min(np.asarray(x.lengths).tolist()) if n else 0
             return [kl(x[:, -1]), kl(x[:, -2]) if ml >= 2 else None] if ml >= 1 else None
